@@ -12,10 +12,10 @@ RM = "runtime monitoring of the real transport in testing/synctest virtual time:
 CHECKS = {
  "C01": T("exploration", RM + "reference RFC 9111 age/lifetime oracle on every from-store answer; exhaustive lifetime-source grid x boundary elapsed times x request directives, an overlap part in which a slow background validation lands on an entry another exchange rewrote meanwhile, plus random histories under the race detector",
    "Every lookup answered from the store without origin contact is judged by an independent saturating age/lifetime computation fed from the harness's own records; held = no surely-stale serve without max-stale / only-if-cached / stale-while-revalidate on the cases executed.",
-   "trusts testing/synctest virtual time, the harness oracle and the token identities; +-1 s guard bands at heuristic / max-stale / SWR boundaries are not judged", "DESIGN.md 4 C01"),
- "C02": T("exploration", RM + "universal monitor (validation demanded => a 304 was obtained in this exchange, or the origin's own answer returned), validation-request and request-object snapshots, over random histories under the race detector",
+   "trusts testing/synctest virtual time, the harness oracle and the token identities; +-1 s guard bands at max-stale / SWR boundaries are not judged; a repeated max-age is read as its first occurrence, or stale", "DESIGN.md 4 C01"),
+ "C02": T("exploration", RM + "universal monitor (validation demanded => a 304 was obtained in this exchange, or the origin's own answer returned), validation-request and request-object snapshots, over random histories under the race detector; a client-conditionals part (stored validators x client preconditions x request directives after the origin moved on)",
    "Flags every from-store answer without a 304 in the same exchange where stored no-cache / stale must-revalidate / request no-cache / exceeded request max-age / a qualified no-cache field apply; checks validation requests and that the caller's request object is unchanged.",
-   "client-supplied conditionals and duplicated directives are not judged", "DESIGN.md 4 C02"),
+   "a 304 counts as a validation only if the precondition the origin evaluated was copied from the stored response (read from the bytes the store returned); request max-age and max-stale add up", "DESIGN.md 4 C02"),
  "C03": T("exploration", RM + "bulk store/lookup of URI sets (all pairs implied) judged by an independent RFC 3986 equivalence classifier; every method and GET+Range against a populated cache; malformed percent-escapes in queries; random histories",
    "A foreign body token returned for a URI the classifier calls distinct, or any from-store answer to a non-GET / Range request, is a violation.",
    "pairs classified unknown (userinfo, '?' vs none, %2E dot segments, raw vs encoded non-ASCII, opaque vs hierarchical) are not judged", "DESIGN.md 4 C03"),
@@ -33,8 +33,8 @@ CHECKS = {
  "C09": T("exploration", RM + "scenario oracle: store, non-invalidating noise, then an equivalent request (URI and header spellings the cache documents) inside the lifetime must be answered from the store without origin contact; memory, fs, encrypted fs and reopened fs backends",
    "Catches 'safe but useless' regressions: any origin contact or foreign token for a fresh matching request is a violation.",
    "only equivalences the cache documents are used; margins >= 2 s", "DESIGN.md 4 C09"),
- "C10": T("fault_enumeration", RM + "recover()/nil-nil/error-origin monitor on every exchange of random histories incl. origin errors, 5xx, failing bodies; child process per batch so that a crash in a background goroutine is attributed to the journalled case",
-   "Panics, (nil,nil), errors without an origin failure and process deaths are violations.",
+ "C10": T("fault_enumeration", RM + "recover()/nil-nil/error-origin monitor on every exchange of random histories incl. origin errors, 5xx, failing bodies; child process per batch so that a crash in a background goroutine is attributed to the journalled case; every upstream reply must be handed to the caller or released by quiescence (close / EOF tracking in the simulator); upstream responses with a nil header map at every stage",
+   "Panics, (nil,nil), errors without an origin failure, process deaths and upstream replies that are neither handed on nor released (their connection stays checked out: the next round trip of a connection-limited client hangs) are violations.",
    "upstreams that break the RoundTripper contract are out of scope", "DESIGN.md 4 C10"),
  "C11": T("exploration", RM + "universal monitor comparing Age with the oracle's current age (+-1 s) and X-Httpcache-Status / X-From-Cache with what the upstream log shows, on every exchange of random histories",
    "Wrong/missing/multiple Age on unvalidated from-store answers and status values inconsistent with the upstream log are violations.",
@@ -51,10 +51,10 @@ CHECKS = {
  "C14": T("exploration", "model-based runtime checking: every result of Set/Get/Delete/Keys (and of the maintenance HTTP handlers) compared with an in-harness map over adversarial key sets (incl. keys nested deeper than PATH_MAX) and backend configurations incl. reopen; porcupine linearizability check for concurrent memory-backend histories; disjoint-key concurrency on fs under the race detector",
    "Any result that differs from the map (wrong bytes, error on a legal key, missing ErrNotExist, wrong listing, aliasing with caller buffers) is a violation.",
    "keys up to about 6 kB (deeper than PATH_MAX); keys not addressable through an HTTP path segment are not judged via the API", "DESIGN.md 4 C14"),
- "C15": T("fault_enumeration", "porcupine linearizability checking of recorded concurrent fs histories with self-describing values (race detector on); child processes whose writes are cut at EVERY byte by RLIMIT_FSIZE; writers killed by timed SIGKILL or strace signal injection at syscall boundaries, with the on-disk states seen recorded; after every cut / kill the reopened backend must list consistently with Get and read a later, shorter Set back exactly; the same cut applied under a real transport",
+ "C15": T("fault_enumeration", "porcupine linearizability checking of recorded concurrent fs histories with self-describing values (plain, encrypted and update_mtime configurations; race detector on; a Get error other than not-exist is a violation there); child processes whose writes are cut at EVERY byte by RLIMIT_FSIZE; writers killed by timed SIGKILL or strace signal injection at syscall boundaries, with the on-disk states seen recorded; after every cut / kill the reopened backend must list consistently with Get and read a later, shorter Set back exactly; the same cut applied under a real transport",
    "A Get returning bytes that are not, in full, a value ever Set for the key, an illegal history, or a transport serving a damaged body is a violation.",
    "process kill is not power loss; strace when=N counts per thread (coverage = recorded disk states)", "DESIGN.md 4 C15"),
- "C17": T("fault_enumeration", "tamper enumeration on the real backend files (every byte position x masks, every truncation, extensions, block swaps, multi-byte edits) with Get as the oracle; plaintext-window / nonce / ciphertext-equality scan of every file written through every configuration path, also under overlapping writers (race detector on); unusable keys x configuration paths; tampering under a real transport",
+ "C17": T("fault_enumeration", "tamper enumeration on the real backend files (every byte position x masks, every truncation, extensions, block swaps, multi-byte edits, replacement by another entry's file written with the same key) with Get as the oracle; plaintext-window / nonce / ciphertext-equality scan of every file written through every configuration path, also under overlapping writers (race detector on); unusable keys x configuration paths; tampering under a real transport",
    "A tampered file that yields data, plaintext or a repeated nonce on disk, a wrong key yielding data, or an open without a usable key is a violation.",
    "tampering is judged through Get only", "DESIGN.md 4 C17"),
  "C19": T("exploration", RM + "footprint monitor on the recording store: a finite request alphabet repeated 4*U*(1+H*V) rounds against origins using Vary ('*', alternating sets), validation, background refresh and unsuccessful POSTs; key count and index sizes compared with explicit bounds at R/4, R/2, R; emptiness after invalidation",
@@ -68,7 +68,7 @@ CHECKS = {
    "race detector sees only reached paths and its report set varies run to run; Mode S covers pairs of requests from a 14-request alphabet (triples only sampled); interleavings inside one store/origin operation are left to Mode R", "DESIGN.md 3.6, 4 C16, A.2"),
  "C18": T("exploration", RM + "universal monitor: an only-if-cached exchange must have no upstream call (foreground or background, after quiescence) and be a usable stored response or the synthesised 504; a store-faults part repeats this with every store operation failing or returning damaged bytes in turn",
    "Any origin contact, any other result, or a stored response that needs validation is a violation.",
-   "virtual time; random histories with only-if-cached sprinkled in", "DESIGN.md 4 C18"),
+   "virtual time; random histories with only-if-cached sprinkled in; every method and Range requests count", "DESIGN.md 4 C18"),
 }
 
 NOT_YET = {}
